@@ -9,11 +9,9 @@ VARIABLES hist, want
 gvars == <<vars, hist, want>>
 
 FileCases == LET s == ndJsonDeserialize("cases.ndjson") IN {s[i] : i \in 1..Len(s)}
-GQuick    == GQuickE \cup FileCases
-GThorough == GThoroughE \cup FileCases
-\* second pass (Devs = {DF}, ab forced): the as-built alternative of the configurations with a memoising fetcher
-GAltQ == CachedCases \cup {c \in FileCases : c.cached}
-GAltT == GAltQ
+\* the selected exhaustive family plus the sampled cases; second pass (Family = "GAlt", Devs = {DF}, ab forced):
+\* the as-built alternative of the configurations with a memoising fetcher
+GSel == MCSel \cup (IF Family = "GAlt" THEN {c \in FileCases : c.cached} ELSE FileCases)
 
 Log(e) == hist' = Append(hist, e)
 GNext ==
